@@ -118,6 +118,10 @@ DFS_DEFAULT = {"dec": 46, "grp": 44, "minus": 45, "percent": 37, "permille": 824
 # two named decimal formats: European separators with their own NaN / infinity strings; exotic symbols for everything
 DFS_NAMED = {"eu": dict(DFS_DEFAULT, dec=44, grp=46, nan=xdm.cps("nan!"), inf=xdm.cps("inf")),
              "odd": dict(DFS_DEFAULT, dec=124, grp=95, minus=126, percent=112, permille=113, zero=48, digit=64, patsep=33)}
+# formats that differ from "eu" in exactly ONE symbol (formatter objects are cached by the value of the symbol set: a cache key that
+# ignores a symbol would hand one of these the formatter of another)
+for _k, _v in (("inf", xdm.cps("unb")), ("nan", xdm.cps("nix")), ("minus", 126), ("percent", 112), ("permille", 113), ("grp", 95), ("dec", 124)):
+    DFS_NAMED["eu_" + _k] = dict(DFS_NAMED["eu"], **{_k: _v})
 FMT_PICTURES = ["0", "#", "#0", "0.0", "0.00", "#.#", "#.##", "0.0#", "#,##0", "#,##0.00", "#,###", "#,#00.0#", "000", "00.0", "0%", "#%", "0.0%", "#\u2030",
                 "a0b", "(0)", "0.0;(0.0)", "#,##0.0;n#", "x#y;z#w", "x0.0y;z#.##w", "0 u", "[#,##0.00]", "##,##,##0", "#,####", "0;0 cr"]
 
@@ -142,13 +146,18 @@ def fmt_family(res, wd, quick, rng):
         if x["k"] == "inf": return ("-1" if x["neg"] else "1") + " div 0"
         t = xpgen.num_text(x["m"])
         return ("-" + t) if x["neg"] else t
-    combos = []
+    combos, variants = [], []
     for name, dfs in [(None, DFS_DEFAULT)] + sorted(DFS_NAMED.items()):
         for pic in FMT_PICTURES:
             for x in nums:
-                combos.append((name, dfs, localize(pic, dfs), x))
+                (variants if (name or "").startswith("eu_") else combos).append((name, dfs, localize(pic, dfs), x))
     if quick:
-        combos = rng.sample(combos, 1200)
+        combos = rng.sample(combos, 1100)
+    # the one-symbol variants: a few cases each, interleaved with "eu" so that both formatters are live in one transformation
+    few = [c for c in variants if c[2] in (localize("#,##0.0#", c[1]), localize("0%", c[1]), localize("#\u2030", c[1]), localize("0.0;(0.0)", c[1]))
+           and (c[3]["k"] != "fin" or c[3]["m"] in (9876, 12, 1))]
+    combos += few if not quick else rng.sample(few, min(len(few), 260))
+    rng.shuffle(combos)
     fdir = os.path.join(wd, "fmt"); os.makedirs(fdir)
     open(os.path.join(fdir, "in.xml"), "w").write("<r/>")
     decl = "".join('<xsl:decimal-format name="%s" decimal-separator="%s" grouping-separator="%s" minus-sign="%s" percent="%s" per-mille="%s" zero-digit="%s" digit="%s" pattern-separator="%s" NaN="%s" infinity="%s"/>'
